@@ -334,3 +334,31 @@ def run(repo: Repo, rep: Report) -> None:  # noqa: F811
         early = [a for a in dts if a.lineno < first_num]
         rep.ob("C08.j-numeric-accumulators-agree-on-non-numbers", ag, cname + ".update", "numeric(value) precedes value.datatype", not early,
                "" if not early else "%s is read before numeric() has rejected non-literals: an IRI in the group raises AttributeError" % norm(early[0]), node=early[0] if early else num[0])
+
+
+_run_base2 = run
+
+
+def run(repo: Repo, rep: Report) -> None:  # noqa: F811
+    _run_base2(repo, rep)
+    alg = repo.mod("rdflib.plugins.sparql.algebra")
+    rep.rule("C08.k-modifier-keyword-to-algebra-node",
+             "algebra.translate maps SELECT DISTINCT to a `Distinct` node and SELECT REDUCED to a `Reduced` node on every path: under the test `q.modifier == \"DISTINCT\"` the only "
+             "algebra node constructed is Distinct (evalReduced only drops a row equal to the one emitted just before it - rows are sorted on the ORDER BY keys BEFORE projection, so "
+             "equal projected rows need not be adjacent)", floor=2)
+    tr = [f for q, f in alg.functions() if q == "translate"]
+    if not tr:
+        raise AnalysisError("algebra.translate vanished")
+    f = tr[0]
+    n_arm = 0
+    for n in own_nodes(f):
+        if isinstance(n, ast.If):
+            for kw, node in (("DISTINCT", "Distinct"), ("REDUCED", "Reduced")):
+                if '"%s"' % kw in norm(n.test).replace("'", '"') and "modifier" in norm(n.test):
+                    built = [c.args[0].value for s_ in n.body for c in ast.walk(s_) if isinstance(c, ast.Call) and norm(c.func) == "CompValue" and c.args and isinstance(c.args[0], ast.Constant)]
+                    n_arm += 1
+                    ok = built == [node]
+                    rep.ob("C08.k-modifier-keyword-to-algebra-node", alg, "translate", "%s -> %s" % (norm(n.test)[:50], built), ok,
+                           "" if ok else "under `%s` the translator builds %s: SELECT %s does not get the %s evaluator" % (norm(n.test)[:60], built, kw, node), node=n)
+    if n_arm < 2:
+        raise AnalysisError("translate: DISTINCT / REDUCED arms not found")
